@@ -187,8 +187,9 @@ func c09FileLock(c *Ctx, pkStore *packages.Package) {
 
 	// ---- kind, same-path ----
 	type pathIngredients struct {
-		set []string
-		pos token.Pos
+		set    []string
+		pos    token.Pos
+		callee *ssa.Function
 	}
 	ingredientsOf := func(f *ssa.Function, v ssa.Value) []string {
 		set := map[string]bool{}
@@ -249,7 +250,18 @@ func c09FileLock(c *Ctx, pkStore *packages.Package) {
 				continue
 			}
 			if e, s := tryKinds(callee, map[*ssa.Function]bool{}); !e && !s {
-				continue
+				// a shared helper that is handed the locking function as a value (lockWithFunc(ctx, path, lock, …))
+				viaValue := false
+				for _, a := range call.Call.Args {
+					if fv, ok := stripConv(a).(*ssa.Function); ok {
+						if e2, s2 := tryKinds(fv, map[*ssa.Function]bool{}); e2 || s2 {
+							viaValue = true
+						}
+					}
+				}
+				if !viaValue {
+					continue
+				}
 			}
 			for _, a := range call.Call.Args {
 				if b, ok := a.Type().Underlying().(*types.Basic); ok && b.Kind() == types.String {
@@ -257,7 +269,7 @@ func c09FileLock(c *Ctx, pkStore *packages.Package) {
 					if byRecv[recv] == nil {
 						byRecv[recv] = map[string]pathIngredients{}
 					}
-					byRecv[recv][lname] = pathIngredients{ingredientsOf(sf, a), call.Pos()}
+					byRecv[recv][lname] = pathIngredients{ingredientsOf(sf, a), call.Pos(), callee}
 				}
 			}
 		}
@@ -283,6 +295,10 @@ func c09FileLock(c *Ctx, pkStore *packages.Package) {
 		for _, s := range l.set {
 			usesRoot = usesRoot || strings.HasPrefix(s, "field:")
 			usesParam = usesParam || strings.HasPrefix(s, "param#")
+		}
+		if l.callee == rl.callee && eq && usesParam {
+			// both delegate to one helper with their own path argument: the root is joined there, identically
+			usesRoot = true
 		}
 		c.Ob(rule, r+"/same-path", l.pos, eq && usesRoot && usesParam, true, "Lock builds the lock file path from %v, RLock from %v: equal %v, from the locker's root %v and the caller's path %v", l.set, rl.set, eq, usesRoot, usesParam)
 	}
